@@ -960,8 +960,14 @@ impl TwoFloat {
             //          with another lookup table
 
             // x = y/2 + z
-            let y = libm::round(2.0 * self.hi());
-            let z = self - y / 2.0;
+            let mut y = libm::round(2.0 * self.hi());
+            let mut z = self - y / 2.0;
+            // When 2*hi lies exactly half-way between two integers the low word can push
+            // |z| just past 1/4; take the neighbouring multiple of 1/2 in that case.
+            if z.hi().abs() > 0.25 {
+                y += libm::copysign(1.0, z.hi());
+                z = self - y / 2.0;
+            }
 
             // exp(z + y/2) = (1 + expm1(z)) exp(1/2)^y
             let exp_z = z.expm1_quarter() + 1.0;
